@@ -382,6 +382,8 @@ def replay(ctx, case):
     from aioquic.quic.events import DatagramFrameReceived, StreamDataReceived
 
     ctx.case(None, True)
+    if case["kind"] == "blocked":
+        return blocked_case(ctx, case)
     if case["kind"] == "close":
         reason = case["reason"]
         if reason.startswith("'") or reason.startswith('"'):
@@ -420,8 +422,85 @@ def replay(ctx, case):
             return
 
 
+def close_lengths(ctx, part, nparts):
+    """every reason length around the capacity of the closing packet, ASCII and multi-byte, application and HTTP/3 codes"""
+    n = 0
+    for L in list(range(0, 40)) + list(range(1000, 1500)) + [2000, 5000, 70000]:
+        for ch in ("r", "\u00e9", "\u20ac", "\U0001f600"):
+            n += 1
+            if n % nparts != part:
+                continue
+            reason = ch * (L // len(ch.encode("utf8"))) + "x" * (L % len(ch.encode("utf8")))
+            for code in (0x10E, 0x0):
+                close_over_real_connection(ctx, code, reason)
+
+
+def blocked_case(ctx, case):
+    """a client that has finished its requests receives responses whose header blocks arrive before the QPACK encoder stream"""
+    import random
+
+    from aioquic.h3.connection import H3Connection
+    from aioquic.quic.events import DatagramFrameReceived, StreamDataReceived
+    from props import C14
+    from vlib import h3bench as B
+    from vlib.harness import exc_signature
+
+    traffic = C14.make_traffic(case["seed"], "s2c")
+    q = B.StubQuic(True)
+    h3 = H3Connection(q, enable_webtransport=True)
+    rnd = random.Random(case["seed"] * 17 + 3)
+    for sid in sorted(s for s in traffic["streams"] if s % 4 == 0):
+        mine = q.get_next_available_stream_id()
+        h3.send_headers(mine, [(b":method", b"GET"), (b":scheme", b"https"), (b":authority", b"example.com"), (b":path", b"/%d" % mine)], end_stream=case["finish_requests"])
+    queues = {}
+    for sid, (d, fin) in traffic["streams"].items():
+        d = bytes(d)
+        cuts = sorted(set(rnd.randrange(1, len(d)) for _ in range(rnd.randint(0, 3)))) if len(d) > 1 else []
+        chunks = [d[a:b] for a, b in zip([0] + cuts, cuts + [len(d)])] or [b""]
+        queues[sid] = [(sid, c, fin and i == len(chunks) - 1) for i, c in enumerate(chunks)]
+    order = sorted(queues, key=lambda sid: (0 if sid % 4 in (0, 1) else 1, sid)) if case["requests_first"] else sorted(queues, key=lambda s: rnd.random())
+    plan = []
+    if case["interleave"]:
+        keys = list(order)
+        while keys:
+            k = keys[rnd.randrange(min(2, len(keys)))]
+            plan.append(queues[k].pop(0))
+            if not queues[k]:
+                keys.remove(k)
+    else:
+        for k in order:
+            plan.extend(queues[k])
+    blocked = False
+    for sid, chunk, fin in plan:
+        try:
+            h3.handle_event(StreamDataReceived(stream_id=sid, data=chunk, end_stream=fin))
+        except Exception as e:  # noqa
+            ctx.violation(exc_signature(e, "h3-raised-"), "H3Connection.handle_event raised %r while a client with finished requests received stream %d (%d bytes, fin=%s)" % (e, sid, len(chunk), fin), dict(case, kind="blocked"))
+            return
+        blocked = blocked or any(getattr(st_, "blocked", False) for st_ in getattr(h3, "_stream", {}).values())
+    ctx.case(("blocked", repr(case)), nontrivial=blocked, classes=["blocked:" + ("some-stream-blocked" if blocked else "never-blocked"), "blocked:closed" if q.closed else "blocked:open"])
+
+
+def blocked_task(ctx, examples, shard):
+    from hypothesis import strategies as st
+    from vlib.harness import run_hypothesis
+
+    strat = st.fixed_dictionaries({"seed": st.integers(0, 1 << 30), "finish_requests": st.sampled_from([True, True, False]), "requests_first": st.sampled_from([True, True, False]), "interleave": st.booleans()})
+
+    def body(ctx, case):
+        blocked_case(ctx, case)
+        if ctx.want_sample():
+            ctx.sample(dict(case, kind="blocked"))
+
+    run_hypothesis(ctx, body, strat, examples, shard=shard)
+
+
 def plan(tier, seed):
     t = []
+    for p in range(4):
+        t.append(("close-lengths-%d" % p, {"fn": "closelen", "part": p, "nparts": 4}))
+    for s in range(2):
+        t.append(("blocked-streams-%d" % s, {"fn": "blocked", "examples": 400 if tier == "quick" else 20000, "shard": s}))
     n = 12 if tier == "quick" else 14
     ex = 500 if tier == "quick" else 25000
     for s in range(n):
@@ -432,7 +511,11 @@ def plan(tier, seed):
 
 
 def run_task(ctx, name, fn, **kw):
-    if fn == "h3":
+    if fn == "closelen":
+        close_lengths(ctx, kw["part"], kw["nparts"])
+    elif fn == "blocked":
+        blocked_task(ctx, kw["examples"], kw["shard"])
+    elif fn == "h3":
         h3_cases(ctx, kw["examples"], kw["shard"])
     else:
         h0_cases(ctx, kw["examples"], kw["shard"])
